@@ -938,7 +938,9 @@ fn two_peer_base(property: &str, scenario: &str, seed: u64, c: &Ch, allow_specta
             max_prediction: mp,
             input_delay: *c.pick(&[113], &[0usize, 0, 1, 2, 4]),
             sparse: c.chance(&[114], 500_000),
-            desync_interval: 0,
+            // desync detection is part of the swarm here too (checksum reports keep being produced
+            // for endpoints that have stopped running)
+            desync_interval: if c.chance(&[122], 250_000) { c.range(&[123], 1, 12) as u32 } else { 0 },
             fps,
             timeout_ms: 2000,
             notify_ms: 500,
